@@ -47,6 +47,11 @@ def run(tier, seed, build):
         work = rl.copy_file_ir(file_ir)
         before = ir_doc(work)
         impl.Config().state.current_file = None
+        # option combinations must not matter: a third of the programs run under a non-zero badness
+        # threshold (simplification-time errors accumulate badness across generations)
+        if len(metas) % 3 == 1:
+            impl.Config().arguments.threshold = rng.choice([1, 5, 7, 10, 12])
+            res.count("config:threshold-set")
         with impl.Tap():
             o1 = impl.outcome_of(generate_results_from_ir, target_ir=work, import_irs={})
         mid = ir_doc(work)
